@@ -117,28 +117,33 @@ Example C05_hypotheses_satisfiable :
 Proof. exact ex_stages_ok. Qed.
 
 (* ---- efc_row_kbi ------------------------------------------------------------------------------- *)
-(* the translated `_efc_row` over the reals.  On the domain  mjMINIMP <= dmin <= dmax <= mjMAXIMP,
-   mjMINIMP <= mid <= mjMAXIMP, width >= mjMINVAL, power >= 1, with x = |pos_imp| / width:
-     impedance  d = dmin + y(x) (dmax - dmin),  y(x) = x^p / mid^(p-1)  (x < mid),
-                                                 1 - (1-x)^p / (1-mid)^(p-1)  (x >= mid),   0 < x < 1
-                d = dmax                                                                      x > 1
+(* the translated `_efc_row` (current code, commit 56e7974 included) over the reals.  For solimp entries
+   dmin, dmax, mid inside [mjMINIMP, mjMAXIMP] (in EITHER order of dmin and dmax), power >= 1, ANY width
+   and ANY solref, with x = |pos_imp| / width:
+     impedance  d = (dmin + dmax)/2                                     width <= mjMINVAL  (flat function)
+                d = dmin + y(x) (dmax - dmin),  y(x) = x^p / mid^(p-1)  (x < mid),
+                                                 1 - (1-x)^p / (1-mid)^(p-1)  (x >= mid),    0 < x < 1
+                d = dmax                                                                       x > 1
      D = 1 / max(invweight (1 - d) / d, mjMINVAL),   aref = - b vel - k d pos_aref,
-     standard solref (both positive):  k = 1/(dmax^2 tc'^2 dampratio^2), b = 2/(dmax tc'),
+     standard solref (both positive):   k = 1/(dmax^2 tc'^2 dampratio^2), b = 2/(dmax tc'),
         tc' = max(timeconst, 2 timestep) unless the REFSAFE disable bit is set
      direct solref (both non-positive): k = -solref0 / dmax^2, b = -solref1 / dmax
-   and pos = pos_aref + margin; margin, vel, frictionloss, type, id are stored unchanged; d lies in
-   [dmin, dmax].  The points x = 0 and x = 1 are excluded: Coq's Rpower 0 p is 1, not 0 (the float
+     mixed solref (one positive, one not): the standard formulas of the DEFAULT (0.02, 1), as MuJoCo C
+   and pos = pos_aref + margin; margin, vel, frictionloss, type, id are stored unchanged; d lies between
+   dmin and dmax.  The points x = 0 and x = 1 are excluded: Coq's Rpower 0 p is 1, not 0 (the float
    model and the T-validation cover them). *)
 Theorem C05_efc_row_kbi :
   forall flags worldid h efcid pos_aref pos_imp iw s0 s1 dmin dmax width mid p margin vel fl type id,
-    (MINIMP <= dmin -> dmin <= dmax -> dmax <= MAXIMP -> MINIMP <= mid <= MAXIMP -> MINVAL <= width -> 1 <= p ->
+    (MINIMP <= dmin <= MAXIMP -> MINIMP <= dmax <= MAXIMP -> MINIMP <= mid <= MAXIMP -> 1 <= p ->
     forall imp k b,
-      (0 < Rabs pos_imp / width < 1 /\ imp = imp_doc dmin dmax width mid p pos_imp \/
-       1 < Rabs pos_imp / width /\ imp = dmax) ->
+      (width <= MINVAL /\ imp = (dmin + dmax) / 2 \/
+       MINVAL < width /\ 0 < Rabs pos_imp / width < 1 /\ imp = imp_doc dmin dmax width mid p pos_imp \/
+       MINVAL < width /\ 1 < Rabs pos_imp / width /\ imp = dmax) ->
       (0 < s0 /\ 0 < s1 /\ k = k_standard dmax (tc_eff flags s0 h) s1 /\ b = b_standard dmax (tc_eff flags s0 h) \/
-       s0 <= 0 /\ s1 <= 0 /\ k = k_direct dmax s0 /\ b = b_direct dmax s1) ->
+       s0 <= 0 /\ s1 <= 0 /\ k = k_direct dmax s0 /\ b = b_direct dmax s1 \/
+       mixed_solref s0 s1 /\ k = k_standard dmax (tc_eff flags (1 / 50) h) 1 /\ b = b_standard dmax (tc_eff flags (1 / 50) h)) ->
       @_efc_row_pure R ScalarR flags worldid h efcid pos_aref pos_imp iw [s0; s1] [dmin; dmax; width; mid; p] margin vel fl type id
-      = row_doc k b imp iw pos_aref margin vel fl type id /\ dmin <= imp <= dmax)%R.
+      = row_doc k b imp iw pos_aref margin vel fl type id /\ Rmin dmin dmax <= imp <= Rmax dmin dmax)%R.
 Proof. exact efc_row_kbi. Qed.
 Print Assumptions C05_efc_row_kbi.
 
@@ -147,40 +152,39 @@ Theorem C05_efc_row_shape :
   forall flags worldid h efcid pos_aref pos_imp iw s0 s1 dmin dmax width mid p margin vel fl type id,
     (MINIMP <= dmin <= MAXIMP -> MINIMP <= dmax <= MAXIMP -> MINIMP <= mid <= MAXIMP -> 1 <= p ->
     @_efc_row_pure R ScalarR flags worldid h efcid pos_aref pos_imp iw [s0; s1] [dmin; dmax; width; mid; p] margin vel fl type id
-    = row_doc (k_code flags h s0 s1 dmax) (b_code flags h s0 s1 dmax) (imp_code dmin dmax (Rmax MINVAL width) mid p pos_imp)
+    = row_doc (k_code flags h s0 s1 dmax) (b_code flags h s0 s1 dmax) (imp_code dmin dmax width mid p pos_imp)
               iw pos_aref margin vel fl type id)%R.
 Proof. exact efc_row_shape. Qed.
 Print Assumptions C05_efc_row_shape.
 
 Example C05_efc_row_kbi_hyps_satisfiable :
-  (MINIMP <= 9 / 10 /\ 9 / 10 <= 95 / 100 /\ 95 / 100 <= MAXIMP /\ MINIMP <= 1 / 2 <= MAXIMP /\ MINVAL <= 1 / 1000 /\ 1 <= 2 /\
-   0 < Rabs (1 / 2000) / (1 / 1000) < 1)%R.
+  (MINIMP <= 95 / 100 <= MAXIMP /\ MINIMP <= 1 / 2 <= MAXIMP /\ 1 <= 2 /\ MINVAL < 1 / 1000 /\
+   0 < Rabs (1 / 2000) / (1 / 1000) < 1 /\ mixed_solref (2 / 100) (-1) /\ 0 <= MINVAL)%R.
 Proof. exact efc_row_kbi_hyps_satisfiable. Qed.
 
-(* ---- where the code's function is NOT MuJoCo C's (replayed on the real code by the check) ---- *)
-(* mixed solref: MuJoCo C substitutes the default (0.02, 1); the code does not *)
-Theorem C05_efc_row_mixed_solref_not_default_refuted :
+(* ---- documentation: the three deviations from MuJoCo C of `_efc_row` BEFORE commit 56e7974 --------- *)
+(* stated about the OLD piecewise definitions ([k_code_old], [b_code_old], [imp_code_old] of
+   Model/Assembly.v, no longer tied to the source), each together with what the current definitions
+   (tied to the source by C05_efc_row_shape) give on the same input.  The former witnesses are
+   regression cases of bin/props/C05.py, reported under their original keys if they fail again. *)
+Theorem C05_pre_fix_mixed_solref_not_default :
   exists flags h s0 s1 dmax, (mixed_solref s0 s1 /\ MINIMP <= dmax <= MAXIMP /\
-    b_code flags h s0 s1 dmax <> b_code flags h (2 / 100) 1 dmax)%R.
-Proof. exact efc_row_mixed_solref_not_default_refuted. Qed.
-Print Assumptions C05_efc_row_mixed_solref_not_default_refuted.
+    b_code_old flags h s0 s1 dmax <> b_code_old flags h (2 / 100) 1 dmax /\
+    b_code flags h s0 s1 dmax = b_code flags h (2 / 100) 1 dmax)%R.
+Proof. exact pre_fix_mixed_solref_not_default. Qed.
+Print Assumptions C05_pre_fix_mixed_solref_not_default.
 
-(* width <= mjMINVAL, dmin <> dmax: MuJoCo C returns the mean impedance; the code saturates at dmax *)
-Theorem C05_efc_row_zero_width_not_mean_refuted :
+Theorem C05_pre_fix_zero_width_not_mean :
   exists dmin dmax mid p r, (MINIMP <= dmin /\ dmin < dmax /\ dmax <= MAXIMP /\
-    imp_code dmin dmax (Rmax MINVAL 0) mid p r = dmax /\ dmax <> (dmin + dmax) / 2)%R.
-Proof. exact efc_row_zero_width_not_mean_refuted. Qed.
-Print Assumptions C05_efc_row_zero_width_not_mean_refuted.
+    imp_code_old dmin dmax (Rmax MINVAL 0) mid p r = dmax /\ dmax <> (dmin + dmax) / 2 /\
+    imp_code dmin dmax 0 mid p r = (dmin + dmax) / 2)%R.
+Proof. exact pre_fix_zero_width_not_mean. Qed.
+Print Assumptions C05_pre_fix_zero_width_not_mean.
 
-(* dmin > dmax, x in (0,1): MuJoCo C evaluates dmin + y(x)(dmax - dmin) unclamped (> dmax); the code's
-   wp.clamp(imp, dmin, dmax) returns dmax *)
-Theorem C05_efc_row_dmin_above_dmax_refuted :
+Theorem C05_pre_fix_dmin_above_dmax_clamped :
   forall dmin dmax width mid p r,
-    (dmax < dmin -> 0 < mid < 1 -> 1 <= p -> 0 < Rabs r / width < 1 ->
-    imp_code dmin dmax width mid p r = dmax /\ dmax < imp_doc dmin dmax width mid p r)%R.
-Proof. exact efc_row_dmin_above_dmax_refuted. Qed.
-Print Assumptions C05_efc_row_dmin_above_dmax_refuted.
-
-Example C05_efc_row_dmin_above_dmax_hyps_satisfiable :
-  (5 / 10 < 95 / 100 /\ 0 < 1 / 2 < 1 /\ 1 <= 2 /\ 0 < Rabs (3 / 10) / (5 / 10) < 1)%R.
-Proof. exact efc_row_dmin_above_dmax_hyps_satisfiable. Qed.
+    (dmax < dmin -> MINVAL < width -> MINIMP <= mid <= MAXIMP -> 1 <= p -> 0 < Rabs r / width < 1 ->
+    imp_code_old dmin dmax width mid p r = dmax /\ dmax < imp_doc dmin dmax width mid p r /\
+    imp_code dmin dmax width mid p r = imp_doc dmin dmax width mid p r)%R.
+Proof. exact pre_fix_dmin_above_dmax_clamped. Qed.
+Print Assumptions C05_pre_fix_dmin_above_dmax_clamped.
